@@ -26,7 +26,7 @@ def gen_history(rng, maxlen, kinds, ntext, nuri=2):
         elif k == "unkreq":
             hist.append({"k": "unkreq", "id": i})
         elif k == "unknotif":
-            hist.append({"k": "unknotif"})
+            hist.append({"k": "unknotif", "w": rng.randrange(0, 5)})
         elif k == "cresp":
             hist.append({"k": "cresp", "id": i})
     hist.append({"k": "shutdown", "id": n + 1})
